@@ -94,6 +94,19 @@ func (f *frame) preservedHeaps(callee *ssa.Function) map[string]bool {
 				}
 			case *types.Slice:
 				out["E$"+typeName(u.Elem())] = true
+			case *types.Struct:
+				// a struct-valued field (an embedded buffer): the slices and maps
+				// it holds directly belong to it
+				for k := 0; k < u.NumFields(); k++ {
+					switch w := u.Field(k).Type().Underlying().(type) {
+					case *types.Map:
+						for _, n := range mapHeapNames(w) {
+							out[n] = true
+						}
+					case *types.Slice:
+						out["E$"+typeName(w.Elem())] = true
+					}
+				}
 			}
 		}
 		c.note("abstract calls in " + funcKey(root.fn) + " are assumed not to modify " + item + " (closed by the structural writers obligation on that field; other maps of the same Go type are not distinguished)")
